@@ -124,6 +124,27 @@ def _ev_int(t, env):
         if a is None or b is None or (t[1] == "Rem" and b == 0):
             return None
         return {"Rem": lambda: a % b, "Add": lambda: a + b, "Sub": lambda: a - b, "Mul": lambda: a * b, "BitAnd": lambda: a & b}[t[1]]()
+    if t[0] == "bin" and t[1] == "Div":
+        a, b = _ev_int(t[2], env), _ev_int(t[3], env)
+        return None if a is None or not b else a // b
+    if t[0] == "neg" or t[0] == "bitnot":
+        a = _ev_int(t[1], env)
+        return None if a is None else ((-a) % (1 << 64) if t[0] == "neg" else (~a) % (1 << 64))
+    if t[0] == "call" and re.match(r"^core::num::(<impl (usize|u64)>::)?(next_multiple_of|wrapping_neg|div_ceil|wrapping_sub|wrapping_add)$", t[1]):
+        vs = [_ev_int(a, env) for a in t[2]]
+        if any(v is None for v in vs):
+            return None
+        fn = t[1].split("::")[-1]
+        if fn == "next_multiple_of" and len(vs) == 2 and vs[1] > 0:
+            return ((vs[0] + vs[1] - 1) // vs[1]) * vs[1]
+        if fn == "div_ceil" and len(vs) == 2 and vs[1] > 0:
+            return (vs[0] + vs[1] - 1) // vs[1]
+        if fn == "wrapping_neg" and len(vs) == 1:
+            return (-vs[0]) % (1 << 64)
+        if fn == "wrapping_sub" and len(vs) == 2:
+            return (vs[0] - vs[1]) % (1 << 64)
+        if fn == "wrapping_add" and len(vs) == 2:
+            return (vs[0] + vs[1]) % (1 << 64)
     return None
 
 
